@@ -4,7 +4,7 @@ EXTRACT_V = "ExtractHeap.v"
 MODEL_DEPS = ["Base/Bytes.v", "Base/GoSem.v", "Gen/FromGo.v", "DM/Value.v", "Heap/GoMem.v", "Heap/BasicHeap.v", "Heap/Script.v"]
 DRIVER = "c11_driver"
 HARNESS = "c11"
-COUNTS = {"quick": 1500, "thorough": 60000}
+COUNTS = {"quick": 3000, "thorough": 60000}
 DESIGN_REF = "DESIGN.md §4 C11"
 TECHNIQUE = ("Coq proof of an ownership invariant over heap histories (every backing array / Go map / struct is owned by one "
              "unfinished assembler or frozen) + differential run of the extracted heap model against node/basicnode, "
@@ -24,8 +24,8 @@ LEVEL_TEXT = ("Theorems in coq/Props/C11.v about the executable heap model coq/H
 LEVEL_NOTE = ("Modelled, not verified: the Go code of node/basicnode, matcher.go Slice, datamodel.Copy, FocusedTransform (as API clients "
               "in coq/Heap/Script.v), bytes.Reader / io.SectionReader / readerat (net effect of io.ReadAll). Nodes of other "
               "implementations are modelled as immutable values (RForeign). The theorems are about API-call histories; that the "
-              "script-level clients (copy, transform, decoders, dump) only perform API calls is by construction of Script.v "
-              "(every heap access goes through pstep), not a separate theorem. Uint nodes, links and huge size hints are not exercised.")
+              "script-level clients (copy, transform, decoders, dump, the re-dump after every step) are such histories is "
+              "C11_scripts_are_legal_histories / C11_script_stable. Uint nodes, links and huge size hints are not exercised.")
 TRUSTED = ["node/basicnode, traversal/selector/matcher.go, datamodel.Copy, traversal.FocusedTransform: hand-modelled in coq/Heap/*.v; tied by correspondence only",
            "Go runtime semantics of slices (in-place append when len < cap), maps, pointers, bytes.Reader, io.SectionReader, io.ReadAll as modelled in coq/Heap/GoMem.v; the append growth policy is a parameter the theorems quantify over"]
 RULE = ("histories from a stateful generator that tracks the builder contract (mostly Legal, ~1 in 6 with one misuse or caller write), "
